@@ -14,8 +14,12 @@ regular expression has been introduced.
 | `parse_integers`: `"-" in _csv_part`, `_csv_part.split("-")` | `parsePart` (`splitOn '-'`) |
 | `parse_integers`: `"".join(filter(str.isdigit, …))` | the digit filter of `parsePart` |
 
-`rxScan…` are *scan lists*: every regex call, literal `str` separator and `"lit" in …` test of the function, distinct,
-in order of first appearance, as `(callee, text, flags)`.
+`rx…` are *scan sets* (`harness/rxscan.py`, `scan_closure`): for the named entry point and every helper of the same
+source file it reaches, every regex call (with flags; a compiled pattern's method is reported as the `re.` function
+with the pattern's text), literal `str` separator and `"lit" in …` test, as a sorted duplicate-free list of
+`(what, text, flags or detail)`.  So a regex call that is added to, or removed from, the modelled code breaks the
+obligation as well, while moving a test into a helper method, re-ordering tests, negating one (`!=` is reported as
+`==`, `not in` as `in`), hoisting a pattern into a compiled constant or renaming a constant / local variable does not.
 -/
 namespace Ccp.RxC14
 
@@ -23,14 +27,13 @@ namespace Ccp.RxC14
 source for which the model contains a hand-written scanner has the text that scanner was written for.  (The goals
 are named `regexes_as_modelled__<definition>`, so that a failing build names the constant that was edited.) -/
 theorem regexes_as_modelled :
-    Gen.rxScanRangeInit =
-      [("lit in", ",,", "")] ∧
-    Gen.rxScanRangeParseIntegers =
-      [("str.split", ",", ""),
+    Gen.rxRangeIntegers =
+      [("lit in", ",,", ""),
        ("lit in", "-", ""),
-       ("str.split", "-", ""),
-       ("str.join", "", "")] := by
-  refine ⟨?regexes_as_modelled__rxScanRangeInit, ?regexes_as_modelled__rxScanRangeParseIntegers⟩
+       ("str.join", "", ""),
+       ("str.split", ",", ""),
+       ("str.split", "-", "")] := by
+  refine ?regexes_as_modelled__rxRangeIntegers
   all_goals rfl
 
 end Ccp.RxC14
